@@ -189,7 +189,7 @@ func c13DumpBackend(ctx context.Context, b physical.Backend) (map[string][]byte,
 
 var (
 	c13CoreSegs   = []string{"a", "b", "a-", "a.", "a0", "ab", "é", "x0", "y"}
-	c13ExoticSegs = []string{" ", "A", "~", "日本語", "a..b", ".a", "_a", "-", "0", "..", ".", "n\x00u", "h\xff", strings.Repeat("M", 300), "foo", "foo-bar", "foo0"}
+	c13ExoticSegs = []string{" ", "A", "~", "日本語", "a..b", ".a", "_a", "-", "0", "..", ".", "n\x00u", "😀", strings.Repeat("M", 300), "foo", "foo-bar", "foo0"}
 	c13FixedAfter = []string{".", "..", "a/", "a/b", "x/../y", "a/..", "./a", "a//b", "/", "~", "\xff", "a\x00", "a/./b", "../a", "0"}
 )
 
@@ -401,6 +401,19 @@ func TestVerif_C13_RaftListing(t *testing.T) {
 					sig = "raft-listpage-after-cleaned-txn"
 				} else {
 					sig = "raft-listpage-after-cleaned-fsm"
+				}
+			}
+			if inTxn && !cleaned && open != nil && open.overlay[p] != nil && p != "" {
+				// a pending put of the key that equals the listed prefix (a trailing-slash key) must show up as entry "";
+				// is the listing exactly what the model gives without that pending key?
+				var without []string
+				for _, k := range keys {
+					if k != p {
+						without = append(without, k)
+					}
+				}
+				if _, wasCommitted := open.snapshot[p]; !wasCommitted && c13EqList(got, c13ListPage(without, p, after, limit)) {
+					sig = "raft-txn-list-misses-pending-empty-entry"
 				}
 			}
 			rec.Violation(rt, sig, detail(), "%s ListPage(%q, after=%q, limit=%d) = %s, model %s (keys %s)", where, p, after, limit, c13QL(got), c13QL(want), c13QL(keys))
